@@ -247,6 +247,34 @@ def check_once_per_step(ctx, R="C12.logs"):
         ctx.ok(R, loop.body[acts[0]], "one action-log entry per executed step, after all termination returns")
     else:
         ctx.finding(R, loop, "actionSequence placement", "the action log is not appended (with the very actions handed to executeActions) exactly once per iteration after the termination tests")
+    # the actions handed to executeActions (and logged) are keyed in schedule order: the map starts empty and receives its keys
+    # only inside the loop over the schedule, keyed by that loop's agent
+    for amap in sorted(x for x in executed if x.isidentifier()):
+        defs = [s_ for s_ in walk_local(fn) if isinstance(s_, ast.Assign) and any(isinstance(t, ast.Name) and t.id == amap for t in s_.targets)]
+        empty_ok = bool(defs) and all(
+            (isinstance(d.value, ast.Dict) and not d.value.keys)
+            or (isinstance(d.value, ast.Call) and dotted(d.value.func) in ("dict", "OrderedDict", "collections.OrderedDict") and not d.value.args and not d.value.keywords)
+            or (isinstance(d.value, ast.Call) and dotted(d.value.func) in ("defaultdict", "collections.defaultdict") and len(d.value.args) <= 1 and not d.value.keywords)
+            for d in defs
+        )
+        stores = [s_ for s_ in walk_local(fn) if isinstance(s_, ast.Assign) and any(isinstance(t, ast.Subscript) and unparse(t.value) == amap for t in s_.targets)]
+        others = [c for c in walk_local(fn) if isinstance(c, ast.Call) and isinstance(c.func, ast.Attribute) and unparse(c.func.value) == amap and c.func.attr in ("update", "setdefault", "__setitem__")]
+        in_sched = True
+        for s_ in stores:
+            key = next(unparse(t.slice) for t in s_.targets if isinstance(t, ast.Subscript) and unparse(t.value) == amap)
+            lp = next((a for a in ancestors(s_) if isinstance(a, ast.For) and isinstance(a.target, ast.Name) and a.target.id == key), None)
+            if lp is None or "scheduleForAgents" not in lib.role_text(fn, lp.iter):
+                in_sched = False
+        if empty_ok and stores and in_sched and not others:
+            ctx.ok(R, defs[0], f"`{amap}` starts empty and is keyed only by the agents of the schedule loop, in schedule order")
+        else:
+            ctx.finding(
+                R,
+                defs[0] if defs else fn,
+                f"action map {amap} keyed outside the schedule loop",
+                f"Simulation._run: the action map `{amap}` handed to executeActions / the action log does not start empty (`{norm_text(defs[0].value, 50) if defs else '?'}`) or receives keys outside the "
+                f"loop over the schedule: its iteration order, i.e. the order in which actions are applied and logged, is then not the simulator's schedule order",
+            )
     try:
         svar = lib.local_from(fn, "self.scheduleForAgents()", what="schedule")
     except AnalysisError:
